@@ -11,7 +11,14 @@ def run(tier, seed):
             'SQLite file; responses, error classes and stored data compared pairwise after every step and with the model; '
             'non-trivial = at least 3 successful calls'),
       monitors=[], backends=('ram', 'sqlmem', 'sqlfile'), compare_backends=True,
-      profile={'delete_study': 0.07, 'owner2': 0.15, 'warmup': 0.6}, nseq_quick=50, nseq_thorough=500)
+      profile={'delete_study': 0.07, 'owner2': 0.15, 'warmup': 0.6}, nseq_quick=50, nseq_thorough=500, extra=long_studies)
+
+
+def long_studies(rep, tier, seed, known, r):
+  """Long sequences on few studies: more than ten trials per study (string-ordered vs numeric ids), many operations."""
+  return svcrun.service_part(rep, 'C07', r, tier, known, monitors=[], backends=('ram', 'sqlmem', 'sqlfile'), compare_backends=True,
+                             nseq_quick=3, nseq_thorough=20, length=(45, 60), tag='long',
+                             profile={'suggest': 0.7, 'fail': 0.02, 'delete_study': 0.0, 'owner2': 0.0})
 
 
 def replay(path):
